@@ -935,3 +935,82 @@ Theorem C01_blocking_skipped_when_mode_unchanged_refuted :
     c_mode (brun mode_only_when_changed c h) = MCustomIP /\ c_ip4 (brun mode_only_when_changed c h) <> v4.
 Proof. exact blocking_skipped_when_mode_unchanged_refuted. Qed.
 Print Assumptions C01_blocking_skipped_when_mode_unchanged_refuted.
+
+(** * Lists of blocked-service ids holding ids the service table does not know (round 9)
+
+    "an enabled ... blocked service": a known id of the list in force for the
+    client, wherever it stands in the list.  The deprecated POST
+    /control/blocked_services/set stores any list; the client storage holds
+    any list; only the validated entry points (PUT blocked_services/update,
+    filtering.New, the client handlers of package home) refuse unknown ids. *)
+From AGH Require Import Model.PipelineSvcIds Proofs.PipelineSvcIds.
+
+(** An unknown id, at any position, changes nothing of what
+    ApplyBlockedServicesList hands to the request. *)
+Theorem C01_unknown_service_id_skipped :
+  forall tbl pre u post,
+  lookup_service tbl u = None ->
+  services_list tbl (pre ++ u :: post) = services_list tbl (pre ++ post).
+Proof. exact unknown_id_skipped. Qed.
+Print Assumptions C01_unknown_service_id_skipped.
+
+Theorem C01_service_list_means_its_known_ids :
+  forall tbl ids, services_list tbl ids = services_list tbl (svc_known_only tbl ids).
+Proof. exact services_list_known_only. Qed.
+Print Assumptions C01_service_list_means_its_known_ids.
+
+(** A known id of the list whose rule matches the name: the blocked-services
+    checker has a match, whatever else the list holds in front of it. *)
+Theorem C01_known_service_blocks_despite_unknown :
+  forall tbl ids id rs r host,
+  In id ids -> lookup_service tbl id = Some rs ->
+  find (nrule_match (mkReq host 0 [] None [])) rs = Some r ->
+  exists name r', first_service (services_list tbl ids) host = Some (name, r').
+Proof. exact known_service_blocks_despite_unknown. Qed.
+Print Assumptions C01_known_service_blocks_despite_unknown.
+
+(** The same for the list stored by any history of set / update calls. *)
+Theorem C01_stored_known_service_blocks :
+  forall tbl init es id rs r host,
+  In id (svc_run tbl init es) -> lookup_service tbl id = Some rs ->
+  find (nrule_match (mkReq host 0 [] None [])) rs = Some r ->
+  exists name r', first_service (services_list tbl (svc_run tbl init es)) host = Some (name, r').
+Proof. exact stored_known_service_blocks. Qed.
+Print Assumptions C01_stored_known_service_blocks.
+
+(** The settings of a request see the global list and the client's own list
+    only through their known ids. *)
+Theorem C01_request_services_known_only :
+  forall c q,
+  st_services (client_settings c q) =
+  let global := if c_services_paused c then [] else services_list (c_service_table c) (svc_known_only (c_service_table c) (c_services c)) in
+  match q_client q with
+  | None => global
+  | Some p => if pc_use_own_services p
+              then (if pc_services_paused p then [] else services_list (c_service_table c) (svc_known_only (c_service_table c) (pc_services p)))
+              else global
+  end.
+Proof. exact client_settings_services_known_only. Qed.
+Print Assumptions C01_request_services_known_only.
+
+(** The entry points: an accepted update stores known ids only, a refused
+    one leaves the stored list alone, the deprecated set stores anything. *)
+Theorem C01_update_stores_known_ids :
+  forall tbl stored ids,
+  snd (svc_store tbl stored (SEUpdate ids)) = true ->
+  fst (svc_store tbl stored (SEUpdate ids)) = ids /\ Forall (fun i => lookup_service tbl i <> None) ids.
+Proof. exact update_stores_known. Qed.
+Print Assumptions C01_update_stores_known_ids.
+
+Theorem C01_refused_update_keeps_list :
+  forall tbl stored ids,
+  snd (svc_store tbl stored (SEUpdate ids)) = false -> fst (svc_store tbl stored (SEUpdate ids)) = stored.
+Proof. exact refused_update_keeps. Qed.
+Print Assumptions C01_refused_update_keeps_list.
+
+Example C01_unknown_before_known_satisfiable :
+  svc_run exs_tbl [] [SESet exs_ids] = exs_ids /\
+  lookup_service exs_tbl [110;111] = None /\
+  (exists name r, first_service (services_list exs_tbl exs_ids) [120;46;116;101;115;116] = Some (name, r)) /\
+  snd (svc_store exs_tbl [] (SEUpdate exs_ids)) = false.
+Proof. exact exs_unknown_before_known. Qed.
